@@ -343,6 +343,59 @@ pub fn run(ctx: &Ctx) -> Result<(), String> {
             return Err(e);
         }
     }
+    // framed requests whose VER list offers draft-13 together with other numbers (classic 0 first,
+    // unknown numbers first/after): answered as draft-13 — framed, whole-request leaf, 32-byte nodes
+    {
+        let d13 = VER_IETF13.to_vec();
+        let lists: Vec<Vec<u8>> = vec![
+            [vec![0u8; 4], d13.clone()].concat(),
+            [d13.clone(), vec![0u8; 4]].concat(),
+            [vec![0x01, 0, 0, 0x80], d13.clone()].concat(),
+            [vec![0u8; 4], vec![0x0b, 0, 0, 0x80], d13.clone()].concat(),
+            [vec![0u8; 4], vec![0u8; 4], vec![0u8; 4], d13.clone()].concat(),
+        ];
+        for bs in [64u8, 2] {
+            let cfg = SrvCfg { batch_size: bs, ..Default::default() };
+            let lt_pk = crypto::public_key(&cfg.seed);
+            let r = crate::util::on_named_thread("worker-0", || -> Result<Vec<(String, String)>, String> {
+                let mut out = vec![];
+                let mut srv = Srv::new(&cfg)?;
+                // all lists in one burst (one IETF batch) together with a classic request, then one by one
+                for round in 0..2 {
+                    let groups: Vec<Vec<usize>> = if round == 0 { vec![(0..lists.len()).collect()] } else { (0..lists.len()).map(|i| vec![i]).collect() };
+                    for g in groups {
+                        let reqs: Vec<Vec<u8>> = g.iter().map(|&i| ietf_request(&lists[i], None, &nonce(0xe0_0000 + (round * 100 + i) as u64, 32), 1024)).collect();
+                        let clients: Vec<Client> = reqs.iter().map(|_| Client::new()).collect();
+                        let cc = Client::new();
+                        let creq = classic_request(&nonce(0xe1_0000 + round as u64, 64), 1024);
+                        cc.send(srv.addr, &creq);
+                        for (c, r) in clients.iter().zip(&reqs) {
+                            c.send(srv.addr, r);
+                        }
+                        if let Err(p) = srv.settle() {
+                            out.push(("panic".to_string(), p));
+                            return Ok(out);
+                        }
+                        let _ = cc.drain();
+                        for ((c, r), &i) in clients.iter().zip(&reqs).zip(&g) {
+                            let got = c.drain();
+                            if got.len() != 1 {
+                                out.push(("no-reply".to_string(), format!("VER list {}: {} datagrams", hex(&lists[i]), got.len())));
+                            } else if let Err(cl) = authentic(&got[0].0, r, Version::Ietf13, Some(&lt_pk), SERVER_VIEW) {
+                                out.push((cl.to_string(), format!("VER list {}: the reply is not an authentic draft-13 response ({}); first bytes {}", hex(&lists[i]), cl, hex_trunc(&got[0].0, 16))));
+                            }
+                        }
+                    }
+                }
+                Ok(out)
+            })?;
+            stats.histories.fetch_add(1, Relaxed);
+            stats.replies.fetch_add(2 * lists.len() as u64, Relaxed);
+            for (clause, msg) in r {
+                ctx.violation(&clause, "reply", "ietf13/ver-list-offers-other-versions", json!({"kind":"verlists","batch_size":bs,"message":msg}));
+            }
+        }
+    }
     // fault injection: dichotomy per reply (decided over everything emitted) + sampled rate
     let ps: Vec<u8> = ctx.tier.pick(vec![1, 25, 50], (1..=50).collect());
     let per_p = ctx.tier.pick(2048usize, 4096);
